@@ -205,6 +205,8 @@ class BlockIntEnumFieldListWrapper(BlockBindEnum[F], BlockWrapper[F]):
         self.push("@unique")
         self.push(f"class {self.enum_name}(IntEnum):")
         self.push_typing_hint_inline_comment()
+        if not self.d.fields():
+            self.push("    pass")
 
 
 class BlockEnumValueToNameMapItem(BlockBindEnumField[F]):
